@@ -1208,6 +1208,152 @@ fn run_history<const M: usize>(plan: &Plan) {
     d.line("E");
 }
 
+
+// ---------------------------------------------------------------- C20: isolation differential
+// One arena's history is run in a fresh process twice: alone, and surrounded by other arenas
+// (created before, used between its operations on this and on another thread, driven into
+// their limits and into allocator refusals, reset, dropped).  Everything the arena reports
+// that does not depend on addresses must be identical.  Requests are aligned to 16 at most,
+// so the behaviour does not depend on where the system allocator places the chunks.
+fn noise(rng: &mut Rng, others: &mut Vec<Bump>) {
+    match rng.below(7) {
+        0 => {
+            let b = Bump::new();
+            b.set_allocation_limit(Some(*rng.pick(&[0usize, 100, 4096, 10000])));
+            for _ in 0..6 {
+                let _ = b.try_alloc_layout(Layout::from_size_align(600 + rng.usize_below(3000), 8).unwrap());
+            }
+            others.push(b);
+        }
+        1 => {
+            let b = Bump::with_capacity(rng.usize_below(5000));
+            for _ in 0..rng.usize_below(20) {
+                b.alloc_layout(Layout::from_size_align(rng.usize_below(900), 1 << rng.below(5)).unwrap());
+            }
+            others.push(b);
+        }
+        2 => {
+            // the global allocator refuses this arena's chunks
+            let b = Bump::new();
+            track::recorded(|| {
+                track::set_fail_all(true);
+                for _ in 0..4 {
+                    let _ = b.try_alloc_layout(Layout::from_size_align(100 + rng.usize_below(100000), 8).unwrap());
+                }
+                track::clear_faults();
+            });
+            others.push(b);
+        }
+        3 => {
+            if let Some(b) = others.last_mut() {
+                b.reset();
+            }
+        }
+        4 => {
+            if !others.is_empty() {
+                let i = rng.usize_below(others.len());
+                drop(others.swap_remove(i));
+            }
+        }
+        5 => {
+            // an arena living entirely on another thread, and one handed over to it
+            let seed = rng.next();
+            let moved = others.pop();
+            std::thread::spawn(move || {
+                let mut r = Rng::new(seed);
+                let b = Bump::new();
+                b.set_allocation_limit(Some(3000));
+                for _ in 0..30 {
+                    let _ = b.try_alloc_layout(Layout::from_size_align(1 + r.usize_below(2000), 8).unwrap());
+                }
+                if let Some(m) = moved {
+                    let _ = m.try_alloc(1u64);
+                    drop(m);
+                }
+            })
+            .join()
+            .unwrap();
+        }
+        _ => {
+            for b in others.iter() {
+                let _ = b.try_alloc_layout(Layout::from_size_align(1 + rng.usize_below(5000), 16).unwrap());
+            }
+        }
+    }
+}
+
+fn iso_one<const M: usize>(seed: u64, hid: u64, with_noise: bool) {
+    let mut rng = Rng::new(seed ^ hid.wrapping_mul(0xD6E8FEB86659FD93) ^ 0x150);
+    let mut nrng = Rng::new(seed ^ hid ^ 0xBADC0FFE);
+    let mut others: Vec<Bump> = Vec::new();
+    if with_noise {
+        for _ in 0..12 {
+            noise(&mut nrng, &mut others);
+        }
+    }
+    let mut out = String::new();
+    let cap = *rng.pick(&[0usize, 0, 100, 5000]);
+    let mark = track::log_len();
+    let y: Bump<M> = track::recorded(|| if cap == 0 { Bump::<M>::with_min_align() } else { Bump::<M>::with_min_align_and_capacity(cap) });
+    let mut mark = { let m2 = track::log_len(); let _ = mark; m2 };
+    let nops = 30 + rng.usize_below(40);
+    let mut y = y;
+    for i in 0..nops {
+        if with_noise && nrng.chance(1, 2) {
+            noise(&mut nrng, &mut others);
+            mark = track::log_len();
+        }
+        let r = rng.below(100);
+        let (desc, res): (String, String) = if r < 70 {
+            let big = rng.chance(1, 6);
+            let size = if big { rng.usize_below(70000) } else { rng.usize_below(1500) };
+            let lay = Layout::from_size_align(size, 1 << rng.below(5)).unwrap();
+            let ok = track::recorded(|| y.try_alloc_layout(lay).is_ok());
+            (format!("alloc {} {}", lay.size(), lay.align()), if ok { "ok".into() } else { "err".into() })
+        } else if r < 80 {
+            track::recorded(|| y.reset());
+            ("reset".into(), "unit".into())
+        } else if r < 90 {
+            let l = if rng.chance(1, 3) { None } else { Some(rng.usize_below(200000)) };
+            y.set_allocation_limit(l);
+            (format!("limit {:?}", l), "unit".into())
+        } else {
+            let ok = track::recorded(|| y.try_alloc_try_with(|| if rng.chance(1, 2) { Ok(7u64) } else { Err(()) }).is_ok());
+            ("try_with".into(), if ok { "ok".into() } else { "err".into() })
+        };
+        let ev = track::events(mark, track::log_len());
+        mark = track::log_len();
+        let reqs: Vec<String> = ev.iter().map(|e| format!("{:?}:{}:{}:{}", e.kind, e.size, e.align, (e.addr != 0) as u8)).collect();
+        let chunks: Vec<String> = unsafe { y.iter_allocated_chunks_raw() }.map(|(_, n)| n.to_string()).collect();
+        out.push_str(&format!("Y {} {} {} reqs=[{}] ab={} abim={} cap={} chunks=[{}]\n", i, desc, res, reqs.join(","), y.allocated_bytes(), y.allocated_bytes_including_metadata(), y.chunk_capacity(), chunks.join(",")));
+    }
+    drop(y);
+    drop(others);
+    print!("{}", out);
+}
+
+fn iso(seed: u64, count: u64, first: u64) {
+    let exe = std::env::current_exe().unwrap();
+    for hid in first..first + count {
+        let run = |noise: &str| -> String {
+            let o = std::process::Command::new(&exe).args(["isoone", &seed.to_string(), &hid.to_string(), noise]).output();
+            match o {
+                Ok(o) => format!("{}exit={:?}\n", String::from_utf8_lossy(&o.stdout), o.status.code()),
+                Err(e) => format!("spawn failed {:?}\n", e),
+            }
+        };
+        let a = run("0");
+        let b = run("1");
+        if a == b {
+            println!("I hid={} seed={} same lines={}", hid, seed, a.lines().count());
+        } else {
+            let d = a.lines().zip(b.lines()).find(|(x, y)| x != y);
+            let (x, y) = d.unwrap_or(("<length differs>", "<length differs>"));
+            println!("I hid={} seed={} diff alone=[{}] with_others=[{}]", hid, seed, x.replace(' ', "_"), y.replace(' ', "_"));
+        }
+    }
+}
+
 /// with_min_align & friends for supported and unsupported MIN_ALIGN values:
 /// one `T` line each (did it panic, how many chunk requests were made)
 fn ctor_tests() {
@@ -1230,7 +1376,9 @@ fn ctor_tests() {
 }
 
 fn main() {
-    std::panic::set_hook(Box::new(|_| {}));
+    if std::env::args().nth(1).as_deref() != Some("isoone") {
+        std::panic::set_hook(Box::new(|_| {}));
+    }
     bumpalo::verif_hooks::set_on_store(Some(on_store));
     let args: Vec<String> = std::env::args().collect();
     match args.get(1).map(|s| s.as_str()) {
@@ -1245,6 +1393,8 @@ fn main() {
             let first: u64 = args.get(5).map(|s| s.parse().unwrap()).unwrap_or(0);
             if first == 0 {
                 ctor_tests();
+                // C20: isolation differential in fresh processes (shard 0 only)
+                iso(seed, if maxops > 100 { 120 } else { 24 }, 0);
             }
             for hid in first..first + count {
                 let plan = Plan { seed, hid, maxops };
@@ -1257,6 +1407,15 @@ fn main() {
                     _ => run_history::<16>(&plan),
                 }
             }
+        }
+        Some("isoone") => {
+            let seed: u64 = args[2].parse().unwrap();
+            let hid: u64 = args[3].parse().unwrap();
+            let noise = args[4] == "1";
+            if hid % 2 == 0 { iso_one::<1>(seed, hid, noise) } else { iso_one::<8>(seed, hid, noise) }
+        }
+        Some("iso") => {
+            iso(args[2].parse().unwrap(), args[3].parse().unwrap(), args.get(4).map(|s| s.parse().unwrap()).unwrap_or(0));
         }
         _ => {
             eprintln!("usage: arena_driver gen <seed> <count> [maxops] [first] | consts");
